@@ -39,6 +39,7 @@ def run(ctx):
         f, _ = sess.op('const', 'F')
         regs.append(f)
         cmds, meta = [], []
+        dcmds, dmeta = [], []
         for r in regs:
             try:
                 m = sess.model(r)
@@ -116,8 +117,16 @@ def run(ctx):
                 ast = a if ast is None else ['or', ast, a]
             cmds.append(['compile', pv, pfv, ast])
             meta.append((how, m))
+            # the extracted model of to_dnf (collect_dnf + simplify) on the same diagram: the clause lists must coincide
+            dcmds.append(['dnf', m])
+            dmeta.append((how, [[c[1] for c in cl] for cl in clauses]))
             if len(ctx.samples) < 8 and m not in ('T', 'F') and ctx.rng.random() < .01:
                 ctx.sample({'text': text})
+        douts = fw.batch_parallel(build.DRIVER, dcmds)
+        for (how, want), got in zip(dmeta, douts):
+            ctx.corr_cases += 1
+            if got != want:
+                ctx.disagreement('to_dnf ~ MarkerTree::to_dnf (clauses)', how, dump(got)[:600], dump(want)[:600])
         outs = fw.batch_parallel(build.DRIVER, cmds)
         for (how, want), got in zip(meta, outs):
             ctx.corr_cases += 1
